@@ -1,8 +1,10 @@
 _ANCH = ["src/hgraph/types/graph_wiring.cpp", "include/hgraph/types/graph_wiring.h", "src/hgraph/runtime/graph.cpp", "include/hgraph/runtime/graph.h",
          "src/hgraph/runtime/nested_graph_node.cpp", "include/hgraph/types/subgraph_wiring.h"]
-_PROG = ("wiring programs of NNODES statements over {scripted source (at most MAXSRC), 1-input compute node, 2-input compute node}, node 0 a source, every input chosen "
-         "among the earlier statements' ports (all choices enumerated; for 2-input nodes in0<in1), 2-input nodes wired either directly or through one "
-         "TSL<TS<Int>,2> structural source; plus exactly one extra from: none / stdlib::feedback loop F=add2(x,fb()), fb(F) / one add_rank_dependency(a,b) / "
+_PROG = ("wiring programs of NNODES statements over {scripted source (at most MAXSRC), 1-input compute node, 2-input compute node, and - as the last statement - a "
+         "3-input compute node whose inputs may repeat a port}, node 0 a source, every input chosen among the earlier statements' ports (all choices enumerated; "
+         "2-input: in0<in1, 3-input: in0<=in1<=in2), multi-input nodes wired either directly or through one TSL<TS<Int>,2|3> structural source (so also a TSL "
+         "with a repeated element and TSL elements at different depths below a common source); programs with a 3-input node are combined with the extras "
+         "none / one rank dependency only; plus exactly one extra from: none / stdlib::feedback loop F=add2(x,fb()), fb(F) / one add_rank_dependency(a,b) / "
          "a nested child graph {A=add1(x); B=add2(A,y)} owned by a single_nested_graph_node and read by C=add1(nested) / a REF pass-through R=ref_copy(x) read by C=add1(R)")
 
 reg("C01",
@@ -11,7 +13,8 @@ reg("C01",
     quick=dict(defs=dict(NNODES=4, MAXSRC=2), symx=dict(shards=16, **{"max-wall": 900})),
     thorough=dict(defs=dict(NNODES=5, MAXSRC=2), symx=dict(shards=16, **{"max-wall": 3000, "shard-depth": 8})),
     reach=["end", "cyclic_rejected", "rank_dependency_reorders_statements", "nested_child_checked", "feedback_compiled", "push_source_declared_last",
-           "rank_free_pair_compiled", "cyclic_rank_free_pair", "ref_pass_through", "tsl_structural_source"],
+           "rank_free_pair_compiled", "cyclic_rank_free_pair", "ref_pass_through", "tsl_structural_source", "same_producer_read_twice",
+           "tsl_elements_two_levels_apart"],
     bounds=_PROG + "; rank dependencies between ANY two statements (also self, also closing a cycle with data edges or with each other), additionally: two rank "
            "dependencies (all ordered pairs of pairs for NNODES<=4, chains a2->a1->b1 for NNODES=5) / a push source declared last / a pair node whose second input is declared rank_dependency=false while its source is rank-constrained after it "
            "(the shared-output relay pattern of graph_wiring.h). No execution: the compiled GraphBuilder (and the nested child's) is inspected",
@@ -29,7 +32,8 @@ reg("C01",
     quick=dict(defs=dict(NNODES=4, MAXSRC=2, NCYC=2), symx=dict(shards=16, **{"max-wall": 900})),
     thorough=dict(defs=dict(NNODES=4, MAXSRC=2, NCYC=3), symx=dict(shards=16, **{"max-wall": 3000, "shard-depth": 8})),
     reach=["end", "fan_in_with_unequal_depth", "both_inputs_ticked_in_one_cycle", "rank_dependency_reorders_statements", "nested_child_evaluated",
-           "feedback_loop_ran", "read_through_reference_after_first_cycle", "tsl_structural_source"],
+           "feedback_loop_ran", "read_through_reference_after_first_cycle", "tsl_structural_source", "same_producer_read_twice",
+           "tsl_elements_two_levels_apart"],
     bounds=_PROG + " (only acyclic requests; rank dependencies only in the direction that contradicts statement order); run by the simulation executor for NCYC source "
            "cycles (+2 trailing), every source ticks or not in every cycle (all patterns enumerated), payloads symbolic in [-1000,1000]",
     outside="more than NNODES statements / NCYC cycles; nesting deeper than one level; push sources at run time; map_/switch_/reduce children (C10-C12); "
@@ -43,7 +47,8 @@ reg("C01",
     anchor_files=_ANCH,
     thorough=dict(defs=dict(NNODES=5, MAXSRC=1, NCYC=3), symx=dict(shards=16, **{"max-wall": 3000, "shard-depth": 8})),
     reach=["end", "fan_in_with_unequal_depth", "both_inputs_ticked_in_one_cycle", "rank_dependency_reorders_statements", "nested_child_evaluated",
-           "feedback_loop_ran", "read_through_reference_after_first_cycle", "tsl_structural_source"],
+           "feedback_loop_ran", "read_through_reference_after_first_cycle", "tsl_structural_source", "same_producer_read_twice",
+           "tsl_elements_two_levels_apart"],
     bounds=_PROG + " (only acyclic requests; rank dependencies only in the direction that contradicts statement order) with 5 statements and a single source; "
            "run by the simulation executor for 3 source cycles (+2 trailing), all tick patterns, payloads symbolic in [-1000,1000]",
     outside="as C01_eval; additionally: coincident ticks of independent sources at 5 statements",
